@@ -366,3 +366,128 @@ Proof.
   - now right.
   - unfold add_actions. destruct (a_ok i); [|now right]. cbn. left. now rewrite add_idx, N.eqb_refl.
 Qed.
+
+(* ================= round 6: the stronger consistency [Consistent2] ================= *)
+Lemma add_fin : forall i d, apply_batch d (add_batch i) KFin = Some (a_fin i).
+Proof.
+  intros i d. apply batch_unique.
+  - exists (BSet KFin (a_fin i)). split; [|reflexivity]. unfold add_batch. rewrite !in_app_iff. do 7 right; left. cbn; auto.
+  - intros o Ho. classify_add Ho; intros; try discriminate; auto.
+Qed.
+
+Lemma add_diff_value : forall i d h, ~ In h (a_prune i) ->
+  apply_batch d (add_batch i) (KDiff h) = if h =? a_h i then Some (a_diff i) else d (KDiff h).
+Proof.
+  intros i d h Hn. destruct (h =? a_h i) eqn:E.
+  - apply N.eqb_eq in E; subst. apply batch_unique.
+    + exists (BSet (KDiff (a_h i)) (a_diff i)). split; [|reflexivity]. unfold add_batch. rewrite !in_app_iff. do 2 right; left. cbn; auto.
+    + intros o Ho. classify_add Ho; intros Hk; try discriminate; auto. inversion Hk; subst. contradiction.
+  - apply N.eqb_neq in E. apply batch_untouched. intros o Ho. classify_add Ho; try discriminate; try congruence.
+Qed.
+
+Lemma add_body : forall i d x, present d (KBody x) \/ (x = a_id i /\ a_body i = true) ->
+  present (apply_batch d (add_batch i)) (KBody x).
+Proof.
+  intros i d x H. unfold present. rewrite apply_batch_spec.
+  destruct (last_val (add_batch i) (KBody x)) as [w|] eqn:E.
+  - destruct (last_val_some _ _ _ E) as [o [Ho [Hk Hv]]]. subst w.
+    classify_add Ho; try (rewrite cs_op_key in Hk); cbn in Hk; try discriminate.
+  - destruct H as [H|[-> Hb]]; [exact H|].
+    exfalso. apply (last_val_none _ _ E (BSet (KBody (a_id i)) 1)); [|reflexivity].
+    unfold add_batch. rewrite Hb, !in_app_iff. do 5 right; left. cbn; auto.
+Qed.
+
+Lemma del_fin : forall i d, apply_batch d (del_batch i) KFin = d KFin.
+Proof. intros i d. apply batch_untouched. intros o Ho. classify_del Ho; discriminate. Qed.
+
+Lemma del_body : forall i d x, x <> d_id i -> apply_batch d (del_batch i) (KBody x) = d (KBody x).
+Proof.
+  intros i d x Hx. apply batch_untouched. intros o Ho. classify_del Ho; try discriminate. congruence.
+Qed.
+
+Lemma cons2_add : forall hb d i, Consistent2 hb d -> add_pre2 hb d i -> Consistent2 hb (durable_after d (add_actions i)).
+Proof.
+  intros hb d i C [P P2]. pose proof (cons_add d i (c2_base hb d C) P) as Cb.
+  unfold add_actions in *. destruct (a_ok i) eqn:Eok; [|exact C]. cbn in *.
+  destruct (P Eok) as [[t [Ht Hh]] Hfresh]. destruct (P2 eq_refl) as [Hbody [Hfh [Hmono Hpr]]].
+  assert (Hnp : forall h, a_fin i <= h -> ~ In h (a_prune i)).
+  { intros h Hle Hin. rewrite Forall_forall in Hpr. specialize (Hpr _ Hin). lia. }
+  constructor; auto.
+  - exists (a_fin i), (a_h i). rewrite add_fin, add_tipmark. auto.
+  - intros f t' h. rewrite add_fin, add_tipmark. intros Hf Ht' Hlt Hle. inversion Hf; inversion Ht'; subst f t'.
+    unfold present. rewrite add_diff_value by (apply Hnp; lia). destruct (h =? a_h i) eqn:E; [discriminate|].
+    apply N.eqb_neq in E. destruct (c2_fin hb d C) as [f0 [t0 [Hf0 [Ht0 Hle0]]]]. assert (t0 = t) by congruence. subst t0.
+    apply (c2_diffs hb d C f0 t h Hf0 Ht); [specialize (Hmono _ Hf0)|]; lia.
+  - intros h id. rewrite add_idx. destruct (h =? a_h i) eqn:E.
+    + intros Hid Hb; inversion Hid; subst. apply add_body. right. split; auto. congruence.
+    + intros Hid Hb. apply add_body. left. exact (c2_body hb d C h id Hid Hb).
+Qed.
+
+Lemma cons2_del : forall hb d i, Consistent2 hb d -> del_pre2 d i -> Consistent2 hb (durable_after d (del_actions i)).
+Proof.
+  intros hb d i C [P P2]. pose proof (cons_del d i (c2_base hb d C) P) as Cb.
+  unfold del_actions in *. destruct (d_ok i) eqn:Eok; [|exact C]. cbn in *.
+  destruct (P Eok) as [Ht [Hid Hpos]]. specialize (P2 eq_refl).
+  destruct (c2_fin hb d C) as [f0 [t0 [Hf0 [Ht0 Hle0]]]]. assert (t0 = d_h i) by congruence. subst t0.
+  constructor; auto.
+  - exists f0, (d_h i - 1). rewrite del_fin, del_tipmark. specialize (P2 _ Hf0). repeat split; auto. lia.
+  - intros f t' h. rewrite del_fin, del_tipmark. intros Hf Ht' Hlt Hle. inversion Ht'; subst t'.
+    unfold present. rewrite del_diff. destruct (h =? d_h i) eqn:E; [apply N.eqb_eq in E; lia|].
+    apply (c2_diffs hb d C f (d_h i) h Hf Ht); lia.
+  - intros h id. rewrite del_idx. destruct (h =? d_h i) eqn:E; [discriminate|]. intros Hi Hb.
+    assert (id <> d_id i).
+    { intro; subst. pose proof (c_index_data d (c2_base hb d C) _ _ Hi). pose proof (c_index_data d (c2_base hb d C) _ _ Hid).
+      apply N.eqb_neq in E. congruence. }
+    unfold present. rewrite del_body by auto. exact (c2_body hb d C h id Hi Hb).
+Qed.
+
+Lemma cons2_clear : forall hb d hs, Consistent2 hb d -> Consistent2 hb (durable_after d (actions_of (CClearTemp hs))).
+Proof.
+  intros hb d hs C. pose proof (cons_clear d hs (c2_base hb d C)) as Cb. cbn in *. destruct hs as [|h0 hs]; [exact C|].
+  cbn [durable_after fold_left apply_action] in *.
+  set (b := map (fun h => BDel (KTemp h)) (h0 :: hs)) in *.
+  assert (U : forall k, (forall h, k <> KTemp h) -> apply_batch d b k = d k).
+  { intros k Hk. apply batch_untouched. intros o Ho. apply in_map_iff in Ho. destruct Ho as [h [<- _]]. cbn. intro; subst. now apply (Hk h). }
+  destruct C as [C0 [f [t [Hf [Ht Hle]]]] C2 C3]. constructor; auto.
+  - exists f, t. rewrite !U by discriminate. auto.
+  - intros f' t' h. unfold present. rewrite !U by discriminate. apply C2.
+  - intros h id. unfold present. rewrite !U by discriminate. apply C3.
+Qed.
+
+Lemma cons2_op : forall hb d o, Consistent2 hb d -> cop_pre2 hb d o -> Consistent2 hb (durable_after d (actions_of o)).
+Proof. intros hb d [i|i|hs] C P; [now apply cons2_add|now apply cons2_del|now apply cons2_clear]. Qed.
+
+Lemma run_ops_cons2 : forall hb ops d, Consistent2 hb d -> history_ok2 hb d ops -> Consistent2 hb (run_ops d ops).
+Proof.
+  induction ops as [|o ops IH]; intros d C H; cbn; auto.
+  destruct H as [Hp Hr]. apply IH; auto. now apply cons2_op.
+Qed.
+
+Lemma history_ok2_skip : forall hb n ops d, history_ok2 hb d ops -> history_ok2 hb (run_ops d (firstn n ops)) (skipn n ops).
+Proof.
+  induction n as [|n IH]; intros ops d H; cbn; auto.
+  destruct ops as [|o ops]; cbn; auto. destruct H as [_ Hr]. now apply IH.
+Qed.
+Lemma history_ok2_firstn : forall hb n ops d, history_ok2 hb d ops -> history_ok2 hb d (firstn n ops).
+Proof.
+  induction n as [|n IH]; intros ops d H; cbn; auto.
+  destruct ops as [|o ops]; cbn; auto. destruct H as [Hp Hr]. split; auto.
+Qed.
+
+Theorem crash_consistent2 : forall hb ops d n k o, Consistent2 hb d -> history_ok2 hb d ops -> nth_error ops n = Some o ->
+  let before := run_ops d (firstn n ops) in
+  let recovered := durable_after before (firstn k (actions_of o)) in
+  Consistent2 hb recovered /\ (recovered = before \/ recovered = durable_after before (actions_of o)).
+Proof.
+  intros hb ops d n k o C H Hn before recovered.
+  assert (Cb : Consistent2 hb before) by (apply run_ops_cons2; auto; now apply history_ok2_firstn).
+  assert (Hpre : cop_pre2 hb before o).
+  { pose proof (history_ok2_skip hb n ops d H) as Hs. fold before in Hs.
+    assert (Hsk : skipn n ops = o :: skipn (S n) ops).
+    { clear -Hn. revert ops Hn. induction n as [|n IH]; intros [|x ops] Hn; cbn in *; try discriminate.
+      - now inversion Hn.
+      - now apply IH. }
+    rewrite Hsk in Hs. exact (proj1 Hs). }
+  pose proof (crash_before_or_after before o k) as Hc. fold recovered in Hc.
+  split; [|exact Hc]. destruct Hc as [->| ->]; auto. now apply cons2_op.
+Qed.
